@@ -1,4 +1,6 @@
 SPECIFICATION Spec
+CONSTANTS
+  PxOk = TRUE
 INVARIANTS TypeOK PrivacyInv WantedOnlyWhenOff
 VIEW view
 ACTION_CONSTRAINT Emit
